@@ -95,6 +95,8 @@ def degenerate_modules(tier):
     add("recursion through choice and sequence of", "A ::= CHOICE { l SEQUENCE OF A, s SET { a A } }")
     # degenerate constraints and values
     add("empty string as FROM range end", 'A ::= IA5String (FROM ("".."z"))')
+    add("empty string as a FROM range bound in an intersection of FROMs", 'A ::= IA5String (FROM ("abc") ^ FROM ("".."z")) B ::= IA5String (FROM ("abc") ^ FROM ("a"..""))')
+    add("empty string as a FROM range bound with SIZE", 'A ::= IA5String (SIZE (1..8) ^ FROM ("abc") ^ FROM ("".."z")) B ::= IA5String (FROM ("".."z") ^ FROM ("abc")) C ::= PrintableString (FROM ("" | "a".."z") ^ SIZE (2))')
     add("empty string as FROM range start", 'A ::= IA5String (FROM ("a".."")) B ::= NumericString (FROM (""))')
     add("FROM with characters outside the alphabet", 'A ::= NumericString (FROM ("a".."z")) B ::= PrintableString (FROM ("{"))')
     add("inverted range", f"A ::= INTEGER ({P1}..5)", lambda v: [v > 5])
